@@ -15,7 +15,7 @@ from itertools import zip_longest
 import pymbolic.primitives as pmbl
 from pymbolic.mapper import Mapper, WalkMapper, CombineMapper, IdentityMapper
 from pymbolic.mapper.stringifier import (
-    StringifyMapper, PREC_NONE, PREC_SUM, PREC_CALL, PREC_PRODUCT
+    StringifyMapper, PREC_NONE, PREC_SUM, PREC_CALL, PREC_PRODUCT, PREC_POWER
 )
 try:
     from fparser.two.Fortran2003 import Intrinsic_Name
@@ -176,6 +176,17 @@ class LokiStringifyMapper(StringifyMapper):
         denominator = self.rec_with_force_parens_around(expr.denominator, PREC_PRODUCT, *args, **kwargs)
         return self.parenthesize_if_needed(self.format('%s / %s', numerator, denominator),
                                            enclosing_prec, PREC_PRODUCT)
+
+    def map_power(self, expr, enclosing_prec, *args, **kwargs):
+        base = self.rec(expr.base, PREC_POWER, *args, **kwargs)
+        # Exponentiation is right-associative and binds tighter than a sign: a power
+        # or a negative literal used as base needs parentheses to retain its meaning
+        if base.startswith('-') or (isinstance(expr.base, pmbl.Power) and
+                                    not isinstance(expr.base, self.parenthesised_multiplicative_primitives)):
+            base = self.parenthesize(base)
+        return self.parenthesize_if_needed(
+            self.format('%s**%s', base, self.rec(expr.exponent, PREC_POWER, *args, **kwargs)),
+            enclosing_prec, PREC_POWER)
 
     def map_parenthesised_add(self, expr, enclosing_prec, *args, **kwargs):
         return self.parenthesize(self.map_sum(expr, PREC_NONE, *args, **kwargs))
